@@ -21,10 +21,24 @@ func MergeSortedStreams[T any](comparator func(a, b T) int, streams ...Stream[T]
 		comparator: comparator,
 		nextBuffer: make([]*T, len(streams)),
 	}
-	return NewDownMultiStreamSimple(
+	return NewDownMultiStream[T, T](
 		streams,
-		ms.emitMerged,
+		ms,
 	)
+}
+
+func (ms *mergeSortedStreamsProvider[T]) Open(_ context.Context, _ []ProviderFunc[T]) error {
+	// Reset the look-ahead buffer to support reusability (double collection),
+	// items buffered by a previous materialization that stopped early must not leak into this one
+	ms.nextBuffer = nil
+	return nil
+}
+
+func (ms *mergeSortedStreamsProvider[T]) Emit(ctx context.Context, srcProviders []ProviderFunc[T]) (T, error) {
+	return ms.emitMerged(ctx, srcProviders)
+}
+
+func (ms *mergeSortedStreamsProvider[T]) Close() {
 }
 
 func (ms *mergeSortedStreamsProvider[T]) emitMerged(ctx context.Context, srcProviders []ProviderFunc[T]) (T, error) {
